@@ -27,9 +27,10 @@ pub struct Sandbox {
 impl Sandbox {
     pub fn new() -> Self {
         let scratch = Scratch::new();
-        let docs = scratch.sub("docs");
-        let tmpdir = scratch.sub("tmpdir");
-        let home = scratch.sub("home");
+        // awkward on purpose: blanks and non-ASCII letters in every path scrut gets to see
+        let docs = scratch.sub("do cs \u{fc}");
+        let tmpdir = scratch.sub("tmp dir \u{e9}");
+        let home = scratch.sub("ho me");
         Self { scratch, docs, tmpdir, home }
     }
     pub fn write(&self, rel: &str, content: &[u8]) -> PathBuf {
